@@ -164,7 +164,7 @@ def gen_layer_case(rng):
             elif pfx:
                 ops.append([0, 'rx', rid, int(ext), hx(bytes([pfx[0] ^ (1 << rng.randrange(8))]) + f[1:])])
             else:
-                ops.append([0, 'rx', rng.randint(0, 2**nb - 1), int(ext), hx(rand_garbage(rng))])
+                ops.append([0, 'rx', rid ^ rng.randint(1, 2**flipbits - 1), int(ext), hx(rand_garbage(rng))])      # any identifier but mine
             if rng.random() < 0.5:
                 ops.append([0, 'proc', 1, 1])
         ops.append([0, 'rx', rid, int(ext), hx(f)])
@@ -172,13 +172,15 @@ def gen_layer_case(rng):
             ops.append([0, 'proc', 1, 1])
     ops.append([0, 'proc', 1, 1])
     ops.append([0, 'recv'])
-    return {'insts': [inst], 'ops': ops, 'expect': hx(pay), 'rid': rid, 'ext': int(ext), 'pfx': hx(pfx)}
+    return {'insts': [inst], 'ops': ops, 'nops': len(ops), 'expect': hx(pay), 'rid': rid, 'ext': int(ext), 'pfx': hx(pfx)}
 
 
 def oracle_layer(case, lines, insts):
     """Foreign frames never disturb: the genuine message is delivered intact, no error reported,
     received_processed counts exactly the genuine frames."""
     fails = []
+    if 'nops' in case and case['nops'] != len(case['ops']):
+        return []       # shrinking candidate: the expectations below are about the complete case
     errs = [e for l in lines for e in split_line(l)[0] if e.startswith('err:') or e == 'crash']
     if errs:
         fails.append(('C09:foreign-frame-disturbs', 'errors %s while only foreign frames were interleaved' % errs))
